@@ -79,6 +79,21 @@ def cases(ctx):
         # *= through a constant that a later label shadows
         out.append({"kind": "shadow-org", "rom": rom, "trace": True, "spec": {"t": "trace"},
                     "src": f"*={org:#08x}\nc := {org + 0x100:#x}\n{{\n*= c\nnop\nc:\n}}\nl2:\n.dl l2\n"})
+    # a macro application that expands to nothing, then named scopes with equal label names: every label and every
+    # exported scope.name is still the address of ITS definition
+    for rom, org in (("low", 0x028000), ("high", 0x410000)):
+        for pre in (".macro zz_tr(v) {\n.if DEBUG {\n.db v\n}\n}\nDEBUG := 0\nzz_tr(1)\n", ".macro zz_tr() {\n}\nnop\nzz_tr()\nzz_tr()\n",
+                    ".macro zz_tr(v) {\n.if v {\nnop\nzz_tr(v - 1)\n}\n}\nzz_tr(2)\n"):
+            out.append({"kind": "empty-expansion", "rom": rom, "trace": True, "spec": {"t": "trace"},
+                        "src": (f"*={org:#08x}\n{pre}.scope menu {{\nstart:\nnop\nlda.w #0x1234\n}}\n.scope game {{\nrts\nstart:\n.db 0xB2\n}}\n"
+                                "{\nstart:\nnop\n.dl start\n}\njsr.w menu.start\njsr.w game.start\n.dl menu.start, game.start\n")})
+        # an unsized operand whose symbol has another width in the label pass than at emission: refused (phase error),
+        # in plain ROM code and inside a routine relocated to ROM or to RAM alike - never shifted labels
+        for reloc in ("", "@=0x7e2000\n", f"@={org + 0x4000:#08x}\n"):
+            for mn in ("lda", "sta", "inc"):
+                out.append({"kind": "phase-disagreement", "rom": rom, "spec": {"t": "reject"},
+                            "src": (f"*={org:#08x}\ncounter := 0x10\n{reloc}{{\n{mn} counter\ntick_done:\nrts\ncounter = 0x7e2100\n}}\n"
+                                    f"ram_code_end:\n*={org + 0x100:#08x}\nhook:\n.dl tick_done, ram_code_end, hook\n".replace("tick_done, ", ""))})
     # a name reused in an inner scope: every use, and the exported scope.name, is the address of ITS definition
     for rom, org in (("low", 0x028000), ("high", 0x410000)):
         for outer_wrap in (".scope menu {\n%s}\n.dl menu.x\n", "{\n%s}\n", "%s"):
@@ -108,4 +123,4 @@ def cases(ctx):
         for spec in ({"t": "trace"}, {"t": "blocks", "high": rom == "high"}):
             out.append({"kind": "double-cross", "rom": rom, "trace": True, "spec": spec, "files": {"big.bin": blob},
                         "src": f"*={org:#08x}\nbefore:\n.incbin 'big.bin'\nafter:\n.dl after, before\nnop\n"})
-    return out
+    return core.mark_must_assemble(out, {'bank-cross', 'ips-in-run', 'empty-expansion', 'double-cross', 'reuse-in-scope', 'backward'})
